@@ -2146,6 +2146,19 @@ def rule_uringmisc(text):
         (r"\bio::Result<", "IoResult<", "R-ioerr", "std::io::Result with the opaque error type"),
         (r"for" + ws + r"cqe" + ws + r"in" + ws + r"ring\.completion\(\)" + ws + r"\{", "while let Some(cqe) = ring.next_cqe() {", "R-cq",
          "definition of iterating the completion queue: entries are consumed one by one until none is left (A38)"),
+        # ---- DiskIO::new ----
+        (_lit("use std::os::unix::io::AsRawFd;"), "", "R-use", "a `use` inside the body (trait method brought into scope)"),
+        (_lit("file_identity(file.as_ref())?"), "file_identity_of(&file)?", "R-handle", "shim: the file's (device, inode) identity"),
+        (_lit("io::Error::other(") + r"\s*\"[^\"]*\",?\s*\)", "io_error_other()", "R-ioerr", "opaque io error (message dropped)"),
+        (_lit("IoUring::builder() .setup_sqpoll(IOURING_SQPOLL_IDLE_MS) .build(IOURING_QUEUE_SIZE) .ok()"), "ring_build(IOURING_SQPOLL_IDLE_MS, IOURING_QUEUE_SIZE)", "R-handle",
+         "shim: a fresh io_uring instance (None if the kernel refuses): nothing submitted yet"),
+        (_lit("if let Some(ref r) = ring { let mut probe = Probe::new(); if r.submitter().register_probe(&mut probe).is_ok() && probe.is_supported(opcode::Read::CODE) && probe.is_supported(opcode::Write::CODE) {"),
+         "if let Some(r) = &ring { if ring_supports_rw(r) {", "R-handle", "shim: the opcode probe (an opaque boolean of the ring)"),
+        (r"\bAtomicBool::new\(", "FlagCell::new(", "R-atom", "atomic cell constructor"),
+        (r"\bAtomicU64::new\(", "U64Cell::new(", "R-atom", "atomic cell constructor"),
+        (r"\bAtomicUsize::new\(", "UsizeCell::new(", "R-atom", "atomic cell constructor"),
+        (r"\bSelf" + ws + r"\{" + ws + r"ring", "DiskIO { file_marked: Ghost(false), flushed_ok: Ghost(false), sync_writes: Ghost(Seq::empty()), ring", "R-ghostfield",
+         "the handle's ghost fields (no run-time content) get their initial values in the constructor's struct literal"),
         # ---- batch_write_inner ----
         (_lit("for (sector, data) in writes {"),
          "let mut wi_: usize = 0; while wi_ < writes.len() { let (sector, data) = (&writes[wi_].0, &writes[wi_].1); wi_ += 1;", "R-for",
@@ -2220,32 +2233,43 @@ def rule_treeslot(text):
 
 
 def rule_cfgunix(text):
-    """`#[cfg(unix)]` holds on this platform: the attribute is dropped in front of a block / statement; a block or statement
-    under `#[cfg(not(unix))]` (or a nested `#[cfg(target_os = "windows")]`, `#[cfg(not(any(unix, ..)))]`) is removed whole"""
+    """cfg attributes in front of a block / statement inside a function body, decided for this platform (unix, linux):
+    an attribute that holds is dropped, an item under one that does not hold (`not(unix)`, `not(target_os = "linux")`,
+    `target_os = "windows"`, `not(any(unix, ..))`) is removed whole"""
     apps = []
     while True:
         m = mask(text)
-        mm = re.search(r"#\[cfg\((not\()?(unix|target_os\s*=\s*\"windows\"|any\(unix,[^\]]*\))\)?\)\]\s*", m)
+        mm = re.search(r"#\[cfg\(", m)
         if not mm:
             return text, apps
-        head = text[mm.start():mm.end()]
-        positive = head.replace(" ", "").startswith("#[cfg(unix)]")
-        if positive:
-            apps.append(_app("R-cfg", text, mm.start(), mm.end(), "", "cfg(unix) holds on this platform"))
-            text = text[:mm.start()] + text[mm.end():]
+        ob = m.index("[", mm.start())
+        cb = match_close(m, ob)
+        inner = re.sub(r"\s+", "", text[mm.end():cb - 1])
+        neg = False
+        core = inner
+        if core.startswith("not(") and core.endswith(")"):
+            neg = True
+            core = core[4:-1]
+        if core in ("unix", 'target_os="linux"') or core.startswith("any(unix,") or core.startswith('any(target_os="linux",'):
+            base = True
+        elif core in ('target_os="windows"', "windows", "test"):
+            base = False
+        else:
+            return text, apps   # unknown predicate: left in place (a unit's forbid list turns it into `undecided`)
+        end_attr = cb + 1
+        while end_attr < len(text) and text[end_attr] in " \t\n":
+            end_attr += 1
+        if base != neg:
+            apps.append(_app("R-cfg", text, mm.start(), end_attr, "", "this cfg predicate holds on the platform under verification (linux)"))
+            text = text[:mm.start()] + text[end_attr:]
             continue
-        # negative / foreign platform: remove the item that follows (a block `{..}`, `unsafe {..}`, or one statement up to `;`)
-        j = mm.end()
-        k = j
+        k = end_attr
         while k < len(m) and m[k] not in "{;":
             k += 1
         if k >= len(m):
             return text, apps
-        if m[k] == "{":
-            e = match_close(m, k) + 1
-        else:
-            e = k + 1
-        apps.append(_app("R-cfg", text, mm.start(), e, "", "code for another platform (cfg(not(unix)) / windows) is not compiled here"))
+        e = (match_close(m, k) + 1) if m[k] == "{" else (k + 1)
+        apps.append(_app("R-cfg", text, mm.start(), e, "", "code for another platform / configuration is not compiled here"))
         text = text[:mm.start()] + text[e:]
 
 
